@@ -1,5 +1,6 @@
 import Driver.Run
 import Driver.Serve
+import Driver.C02ctx
 
 def main : IO Unit :=
-  Driver.runMain [Driver.Serve.handle]
+  Driver.runMain [Driver.Serve.handle, Driver.C02ctx.handle]
